@@ -108,7 +108,7 @@ class Ctx:
         h['dhas'] = Const('dhas' + tag, ArraySort(R, ArraySort(self.Key, BoolSort())))
         h['dval'] = Const('dval' + tag, ArraySort(R, ArraySort(self.Key, R)))
         h['alloc'] = Const('alloc' + tag, ArraySort(R, BoolSort()))
-        h['ns'] = Const('ns' + tag, DeclareSort('NsState'))      # opaque state of the stock listener's name tables
+        h['ns'] = Const('ns' + tag, ArraySort(R, DeclareSort('NsState')))   # opaque per-parent state of the stock listener's name tables
         h['nsdefault'] = Const('nsdefault' + tag, R)
         return h
 
